@@ -112,6 +112,10 @@ def dispatch(it, body, st, t, fn, args, depth):
     if raw == "core::convert::Into::into" or raw == "core::convert::From::from":
         src = it.deref_all(st, args[0]) if args[0][0] == "ptr" and not dest_ty.startswith("&") else args[0]
         d = strip_refs(dest_ty)
+        if len(d) <= 2 and d[:1].isupper() and src[0] == "mag":
+            # `T::from(BigUint)` inside a generic private helper (T = BigUint or BigInt at the call sites): the value is the
+            # same non-negative number in either type; keep it as a magnitude, which the arithmetic models add to both
+            return ret(st, src)
         if src[0] == "int":
             if d == "biguint::BigUint":
                 return ret(st, MAG(src[1]))
@@ -535,6 +539,15 @@ def dispatch(it, body, st, t, fn, args, depth):
                 return ret(st, ENUM("core::option::Option", "Some", [MAG(sym)]) if st.bools[key] else ENUM("core::option::Option", "None", []))
             if d in UNSIGNED:
                 return ret(st, INT(sym, d))
+    # a closure value called through the Fn* traits (a helper that takes `impl FnOnce(..)`): run the closure body
+    if raw in ("core::ops::FnOnce::call_once", "core::ops::FnMut::call_mut", "core::ops::Fn::call") and len(args) == 2:
+        clo = it.deref_all(st, args[0]) if args[0][0] == "ptr" else args[0]
+        tup = args[1]
+        if clo[0] == "closure" and tup[0] in ("tuple", "unit"):
+            cb = it.facts.body(clo[1])
+            if cb is not None:
+                argv = list(tup[1]) if tup[0] == "tuple" else []
+                return list(it.run_body(cb, st, [TUPLE(list(clo[2]))] + argv, depth + 1))
     # Ordering::then_with(closure) / then(other)
     if name in ("then_with", "then") and len(args) == 2 and args[0][0] == "ord":
         if args[0][1] != 0:
